@@ -122,3 +122,23 @@ Theorem C15_printer_walks_the_seven_lists_in_kind_order :
   /\ bl_eqb gen_display_count_terms (map (fun f => ("node." ++ f ++ ".len()")%string) seven_lists) = true.
 Proof. exact display_shape. Qed.
 Print Assumptions C15_printer_walks_the_seven_lists_in_kind_order.
+
+(* ---- the printable key stored in every node, REGENERATED from src/state.rs on this run (Gen/Keys.v), is the label the
+        model printer writes - for every name and every constraint ---- *)
+From WF Require Import Gen.Keys Proofs.KeysP.
+Theorem C15_stored_key_is_the_printed_label :
+  forall (k : kind) (ky : key), key_shape k ky ->
+  exists fmt, key_fmt k true = Some fmt
+    /\ interp_key fmt (fst ky) (match snd ky with Some c => c | None => [] end) = node_label (Some k) ky.
+Proof. exact stored_key_is_the_printed_label. Qed.
+Print Assumptions C15_stored_key_is_the_printed_label.
+
+Theorem C15_literal_key_is_lossy_text_and_paddings :
+  key_StaticState = None /\ key_lossy_StaticState = true
+  /\ padding_of_StaticState = Some [112; 114; 101; 102; 105; 120]%N
+  /\ Forall (fun p => p = Some F_NAME)
+       [padding_of_DynamicConstrainedState; padding_of_DynamicState; padding_of_WildcardConstrainedState;
+        padding_of_WildcardState; padding_of_EndWildcardConstrainedState; padding_of_EndWildcardState]
+  /\ (forall ky, node_label None ky = lossy (fst ky)).
+Proof. exact literal_key_and_paddings. Qed.
+Print Assumptions C15_literal_key_is_lossy_text_and_paddings.
